@@ -26,8 +26,8 @@ ASSUMPTIONS = ["CPython semantics of bytes.split/strip/startswith, str.strip, in
                "float arithmetic of memory_percent is compared with the exact ratio within 2^-48 relative",
                "the kernel escapes newlines in mapped file names (\\012); names containing a raw newline are outside the grammar",
                "a roll-up whose totals differ from the listing (real kernels round Pss up by < 1 kB per mapping) is compared with the model only"]
-EXHAUSTIVE = {"quick": "memory_percent: all 10 field names x {cached, read} total and 12 unknown names on every generated percent case group",
-              "thorough": "same, 20x the random cases"}
+EXHAUSTIVE = {"quick": "memory_percent: all 10 field names and 12 unknown names on every generated percent base (files + total memory)",
+              "thorough": "same, 12x the random cases"}
 
 FIGS = {"Rss": "FRss", "Size": "FSize", "Pss": "FPss", "Shared_Clean": "FSharedClean", "Shared_Dirty": "FSharedDirty",
         "Private_Clean": "FPrivateClean", "Private_Dirty": "FPrivateDirty", "Referenced": "FReferenced",
@@ -253,7 +253,7 @@ def _mutate(rng, ms):
 
 
 def gen_cases(rng, tier):
-    n = {"quick": 50, "thorough": 1200, "search": 120}[tier]
+    n = {"quick": 50, "thorough": 600, "search": 120}[tier]
     cases = []
     # ---- statm
     for _ in range(n):
